@@ -1,7 +1,7 @@
 (* C11 - record types of the generated cases files and the per-case checks
    (model = observed; spec on observed). Evaluated by vm_compute in .build/cases/. *)
 From Coq Require Import List ZArith NArith Bool Arith.
-From Scalibr Require Import Lib.SortSearch RemedC11.Upgrade RemedC11.Suggest RemedC11.Relax RemedC11.Override.
+From Scalibr Require Import Lib.SortSearch RemedC11.Upgrade RemedC11.Suggest RemedC11.Relax RemedC11.Override RemedC11.RelaxLoop.
 Import ListNotations.
 
 Fixpoint bad_indices {A} (ok : A -> bool) (l : list A) (i : nat) : list nat :=
@@ -330,7 +330,8 @@ Definition wf_versionsb (rk : N -> option Z) (vs : list N) : bool :=
   distinct_ranks (map (fun v => (v, match rk v with Some r => r | None => 0%Z end)) vs) vs.
 
 Definition vcase_dom (c : vcase) : bool :=
-  v_consistent c && wf_versionsb (lookup_opt (v_rank c)) (v_versions c) && memN (v_versions c) (v_vk c).
+  v_consistent c && wf_versionsb (lookup_opt (v_rank c)) (v_versions c) &&
+  match lookup_opt (v_rank c) (v_vk c) with Some _ => true | None => false end.
 
 Definition vcase_spec_ok (c : vcase) : bool := negb (vcase_dom c) || vcase_prop_ok c.
 
@@ -456,3 +457,97 @@ Definition ocase_dom (c : ocase) : bool := ocase_dom_core c && resolver_honours 
 Definition ocase_spec_ok (c : ocase) : bool :=
   match o_observed c with OOutOfFuel _ => false | _ => true end &&
   (negb (ocase_dom_core c) || ocase_prop_core c) && (negb (ocase_dom c) || ocase_prop_orig c).
+
+(* ================= stream: relax.patchVulns (the outer loop of the relax strategy) ================= *)
+Record xcase := {
+  x_cfg : config;
+  x_vuln_ids : list N;
+  x_relax : list (N * N * option N);              (* (package, requirement) -> NpmRelaxer.Relax *)
+  x_analyse : list (list (N * N) * option (list xvuln));
+  x_init : list (N * N);                          (* the manifest's requirement per direct dependency *)
+  x_hm : list (N * N * nat);                      (* (package, requirement) -> position of its highest match *)
+  x_bound : list (N * nat);                       (* number of versions per package *)
+  x_observed : xres
+}.
+
+Definition x_analysef (c : xcase) : list (N * N) -> option (list xvuln) := lookup_ovs (x_analyse c) (Some []).
+Definition x_boundf (c : xcase) (p : N) : nat := lookup1 (x_bound c) 0 p.
+
+Definition xcase_model (c : xcase) : xres :=
+  run_relax (lookup2 (x_relax c) None) (x_analysef c) (x_cfg c) (x_vuln_ids c)
+            (relax_bound (x_boundf c) (map fst (x_bound c))).
+
+Definition xpatch_eqb (a b : xpatch) : bool :=
+  N.eqb (x_pkg a) (x_pkg b) && N.eqb (x_old a) (x_old b) && N.eqb (x_new a) (x_new b).
+
+Fixpoint list_eqb {A} (e : A -> A -> bool) (a b : list A) : bool :=
+  match a, b with
+  | [], [] => true
+  | x :: a', y :: b' => e x y && list_eqb e a' b'
+  | _, _ => false
+  end.
+
+Fixpoint list_prefix_eqb {A} (e : A -> A -> bool) (a b : list A) : bool :=
+  match a, b with
+  | x :: a', y :: b' => e x y && list_prefix_eqb e a' b'
+  | _, _ => true
+  end.
+
+(* reqsToRelax sorts: the order inside a pass is part of the comparison *)
+Definition nonempty_passes (x : list (list xpatch)) : list (list xpatch) :=
+  filter (fun it => match it with [] => false | _ => true end) x.
+
+(* (a pass interrupted before its first replacement leaves no trace) *)
+Definition xres_eqb (a b : xres) : bool :=
+  match a, b with
+  | XOk x, XOk y | XImpossible x, XImpossible y | XErr x, XErr y =>
+      list_eqb (list_eqb xpatch_eqb) (nonempty_passes x) (nonempty_passes y)
+  | XOutOfFuel x, XOutOfFuel y => list_prefix_eqb (list_eqb xpatch_eqb) (nonempty_passes x) (nonempty_passes y)
+  | _, _ => false
+  end.
+
+Definition xcase_model_ok (c : xcase) : bool := xres_eqb (xcase_model c) (x_observed c).
+
+(* the property on the observed replacements: the loop ended; per pass (with the state the manifest had
+   then) every replaced requirement belongs to a direct dependency from which a vulnerable node of one of
+   the vulnerabilities to fix is reachable, never to a none package; on D it moves the highest matching
+   version strictly up *)
+Definition x_hmf (c : xcase) (p r : N) : nat := lookup2 (x_hm c) 0 p r.
+
+Fixpoint x_passes_ok (c : xcase) (ovs : list (N * N)) (its : list (list xpatch)) : bool :=
+  match its with
+  | [] => true
+  | ps :: its' =>
+      let vs := match x_analysef c ovs with Some vs => vs | None => [] end in
+      forallb (fun q =>
+        negb (level_eqb (config_get (x_cfg c) (x_pkg q)) LNone) &&
+        existsb (fun v => memN (x_vuln_ids c) (xv_id v) && memN (xv_reach v) (x_pkg q)) vs) ps &&
+      x_passes_ok c (ovs ++ map x_override ps) its'
+  end.
+
+Definition xcase_prop_core (c : xcase) : bool :=
+  match x_observed c with XOutOfFuel _ => false | _ => true end &&
+  x_passes_ok c [] (xiters_of (x_observed c)).
+
+Definition xcase_prop_up (c : xcase) : bool :=
+  forallb (fun q => Nat.ltb (x_hmf c (x_pkg q) (x_old q)) (x_hmf c (x_pkg q) (x_new q))) (xpatches_of (x_observed c)).
+
+Definition xcase_prop_ok (c : xcase) : bool := xcase_prop_core c && xcase_prop_up c.
+
+(* D: the premises of relax_terminates on the recorded answers *)
+Definition xcase_dom (c : xcase) : bool :=
+  forallb (fun e => match snd e with
+                    | Some r' => let '(p, r) := fst e in
+                                 Nat.ltb (x_hmf c p r) (x_hmf c p r') && Nat.ltb (x_hmf c p r') (x_boundf c p)
+                    | None => true
+                    end) (x_relax c) &&
+  forallb (fun e => match snd e with
+                    | Some vs => forallb (fun v => forallb (fun d =>
+                                   N.eqb (snd d) (cur_req (lookup1 (x_init c) 0%N) (fst e) (fst d)) &&
+                                   memN (map fst (x_bound c)) (fst d)) (xv_directs v)) vs
+                    | None => true
+                    end) (x_analyse c).
+
+Definition xcase_spec_ok (c : xcase) : bool :=
+  match x_observed c with XOutOfFuel _ => negb (xcase_dom c) | _ => true end &&
+  x_passes_ok c [] (xiters_of (x_observed c)) && (negb (xcase_dom c) || xcase_prop_up c).
